@@ -216,6 +216,12 @@ class BaseTemplate:
         for name, function in functions.items():
             setattr(self, "_" + name, function)
 
+        # Entry points left over from a previously cooked body (macros
+        # that the new body no longer defines) must not be served.
+        for name in list(self.__dict__):
+            if name.startswith('_render') and name[1:] not in functions:
+                del self.__dict__[name]
+
         self._cooked = True
 
         if self.keep_body:
